@@ -460,7 +460,7 @@ fn run_inner(rep: &mut Report) {
         .to_string();
     let mut rng = Rng::new(rep.seed ^ 0xC15);
     let mut cases = corpus_cases(rep, &mut rng);
-    let n = rep.budget(300, 20);
+    let n = rep.budget(1500, 10);
     for i in 0..n {
         cases.push(gen_case(&mut rng, i));
     }
